@@ -4,7 +4,6 @@ import (
 	"fmt"
 	"sort"
 	"strings"
-	"sync"
 	"time"
 
 	"verif/harness/lab/chainlab"
@@ -316,21 +315,6 @@ func runValidatedScenario(r *mon.Run, stream uint64) {
 	r.Count("prevalidated_histories", 1)
 	r.Count("reorgs_observed", a.Reorgs)
 	r.Distinct(fmt.Sprintf("preval/%d/%d/%d", stream, len(p1), len(p2)))
-}
-
-func parallel(n int, fn func(i int)) {
-	var wg sync.WaitGroup
-	sem := make(chan struct{}, 16)
-	for i := 0; i < n; i++ {
-		wg.Add(1)
-		sem <- struct{}{}
-		go func(i int) {
-			defer wg.Done()
-			defer func() { <-sem }()
-			fn(i)
-		}(i)
-	}
-	wg.Wait()
 }
 
 func runC01(r *mon.Run, replay string) {
